@@ -39,11 +39,12 @@ LEAVES = ["field", "posint", "negint", "float", "negfloat", "str", "null"]
 PARENTS = {  # kind -> positions
     "add": ["l", "r"], "sub": ["l", "r"], "mul": ["l", "r"], "div": ["l", "r"], "neg": ["a"],
     "eq": ["l", "r"], "lt": ["l", "r"], "like": ["l", "p"], "in": ["l", "v"], "between": ["l", "lo", "hi"],
+    "notin": ["l", "v"], "in-negated": ["l", "v"], "notlike": ["l", "p"], "notnull": ["l"],
     "isnull": ["l"], "not": ["a"], "and": ["l", "r"], "or": ["l", "r"], "xor": ["l", "r"], "fn": ["a0", "a1"], "mod": ["a0", "a1"],
     "case": ["c", "t", "e"],
 }
 COMPOUND = list(PARENTS)
-BOOLISH = {"eq", "lt", "like", "in", "between", "isnull", "not", "and", "or", "xor"}
+BOOLISH = {"eq", "lt", "like", "in", "between", "isnull", "not", "and", "or", "xor", "notin", "in-negated", "notlike", "notnull"}
 
 
 class Names:
@@ -74,6 +75,12 @@ def mk(kind, names, **child):
         return {"t": "like", "o": "LIKE", "l": g("l"), "p": child.get("p") or {"t": "c", "v": "a%"}}
     if kind == "in":
         return {"t": "in", "l": g("l"), "vs": [child.get("v") or {"t": "c", "v": 1}, {"t": "c", "v": 2}], "neg": False}
+    if kind in ("notin", "in-negated"):  # the negated form has its own flag (set by notin() or by negate() on the IN predicate)
+        return {"t": "in", "l": g("l"), "vs": [child.get("v") or {"t": "c", "v": 1}, {"t": "c", "v": 2}], "neg": True, "via": kind}
+    if kind == "notlike":
+        return {"t": "like", "o": "NOT LIKE", "l": g("l"), "p": child.get("p") or {"t": "c", "v": "a%"}}
+    if kind == "notnull":
+        return {"t": "not", "a": {"t": "isnull", "l": g("l")}, "via": "notnull"}
     if kind == "between":
         return {"t": "between", "l": g("l"), "lo": child.get("lo") or {"t": "c", "v": 1}, "hi": child.get("hi") or {"t": "c", "v": 9}}
     if kind == "isnull":
@@ -223,9 +230,15 @@ def build(t):
             #  type(l), e.g. BasicCriterion == ComplexCriterion, which legitimately swaps the operands)
             return reg["BasicCriterion"](reg["Equality"].eq if t["o"] == "==" else reg["Equality"].lt, l, r)
         if k == "like":
-            return build(t["l"]).like(build(t["p"]))
+            return build(t["l"]).not_like(build(t["p"])) if t["o"] == "NOT LIKE" else build(t["l"]).like(build(t["p"]))
         if k == "in":
+            if t.get("neg"):
+                if t.get("via") == "in-negated":
+                    return build(t["l"]).isin([build(v) for v in t["vs"]]).negate()
+                return build(t["l"]).notin([build(v) for v in t["vs"]])
             return build(t["l"]).isin([build(v) for v in t["vs"]])
+        if k == "not" and t.get("via") == "notnull":
+            return build(t["a"]["l"]).notnull()
         if k == "between":
             return build(t["l"]).between(build(t["lo"]), build(t["hi"]))
         if k == "isnull":
@@ -272,9 +285,9 @@ def ref_sql(t):
     if k == "cmp":
         return "(%s %s %s)" % (ref_sql(t["l"]), {"==": "="}.get(t["o"], t["o"]), ref_sql(t["r"]))
     if k == "like":
-        return "(%s LIKE %s)" % (ref_sql(t["l"]), ref_sql(t["p"]))
+        return "(%s %s %s)" % (ref_sql(t["l"]), t["o"], ref_sql(t["p"]))
     if k == "in":
-        return "(%s IN (%s))" % (ref_sql(t["l"]), ", ".join(ref_sql(v) for v in t["vs"]))
+        return "(%s %sIN (%s))" % (ref_sql(t["l"]), "NOT " if t.get("neg") else "", ", ".join(ref_sql(v) for v in t["vs"]))
     if k == "between":
         return "(%s BETWEEN %s AND %s)" % (ref_sql(t["l"]), ref_sql(t["lo"]), ref_sql(t["hi"]))
     if k == "isnull":
